@@ -6,7 +6,9 @@
 //!   selperm <strat> r1 .. rn  -> the distinct (best,backup) index pairs of best_backup_position over
 //!                                ALL permutations of the candidates (n <= 6), in original indices
 //!   gen k1 .. kn              -> best_backup_generic over the integers themselves: <best>,<backup>
-use super::c10::{build, may_be_refused, mutate, parse_route, random_route, ref_eligible, refusal, rfc_prefer, show_route, nat, path_of, base_route, RouteSpec};
+//! The candidates of a sel / selperm line are 12-field routes or - all of them - u-tokens of c10.rs (routes given as
+//! received UPDATEs: from_octets -> PaMap::from_update_pdu -> try_new); `rej` when an UPDATE is not accepted.
+use super::c10::{build_all, cand_specs, edit_plan, gen_plan, may_be_refused, mutate, parse_cand, plan_pdu, random_route, random_tb, read_pdu, ref_eligible, refusal, rfc_prefer, show_pdu_cand, show_route, nat, path_of, base_route, Cand, PduCand, RouteSpec};
 use crate::common::*;
 use routecore::bgp::path_attributes::PaMap;
 use routecore::bgp::path_selection::{best, best_backup, best_backup_generic, best_backup_position, OrdRoute, OrdStrat, Rfc4271, SkipMed, TiebreakerInfo};
@@ -26,8 +28,9 @@ fn oi(o: Option<usize>) -> String { o.map(|v| v.to_string()).unwrap_or("-".into(
 /// Candidates are `(&PaMap, TiebreakerInfo)`: callers may hand in routes that reference ONE attribute
 /// map (a RIB that interns attribute sets) or equal maps in separate allocations.  Both presentations
 /// are run; when they agree the reply is the common one, otherwise both are reported.
-fn sel<OS: OrdStrat + Copy>(specs: &[RouteSpec], perms: bool) -> String {
-    let built: Vec<(PaMap, TiebreakerInfo)> = specs.iter().map(build).collect();
+fn sel<OS: OrdStrat + Copy>(cands: &[Cand], perms: bool) -> String {
+    // candidates given as received UPDATEs (u-tokens of c10.rs): `rej` when one of them is not accepted
+    let built: Vec<(PaMap, TiebreakerInfo)> = match build_all(cands) { Ok(b) => b, Err(e) => return if e == "pmerr" { e } else { "rej".into() } };
     if built.iter().any(|(m, t)| refusal::<OS>(m, *t) != "ok") { return "refused".into(); }
     let own: Vec<&PaMap> = built.iter().map(|(m, _)| m).collect();
     // interned: the first map with equal content stands in for every later one
@@ -309,6 +312,38 @@ impl Prop for C11 {
             v.push(format!("sel {} {}", s, l));
             if n <= 5 { v.push(format!("selperm {} {}", s, l)); }
         }
+        // candidates given as received UPDATEs (from_octets -> PaMap::from_update_pdu -> try_new): a few base UPDATEs,
+        // small edits of their attributes / tie-breakers (ties in preference with different content, equal content
+        // from different octets: attribute order, a repeated attribute behind the first) and exact duplicates
+        for _ in 0..600 * k.min(20) {
+            let n = if rng.chance(1, 6) { rng.usize(7, 20) } else { rng.usize(1, 6) };
+            let (_, four, ap) = super::c17::gen_sess(rng);
+            let eligible = |c: &PduCand| read_pdu(c).map_or(false, |r| ref_eligible(&r) && !may_be_refused(&r));
+            let mk = |rng: &mut Rng| -> (Vec<super::c10::PAttr>, RouteSpec) {
+                loop {
+                    let (plan, tb) = (gen_plan(rng, four), random_tb(rng));
+                    if eligible(&PduCand { four, ap, pdu: plan_pdu(&plan, ap), tb: tb.clone() }) { return (plan, tb); }
+                }
+            };
+            let mut pool: Vec<(Vec<super::c10::PAttr>, RouteSpec)> = (0..rng.usize(1, 3)).map(|_| mk(rng)).collect();
+            let mut toks = Vec::new();
+            for _ in 0..n {
+                let (plan, tb) = match rng.below(10) {
+                    0..=3 => rng.pick(&pool).clone(),
+                    4..=8 => {
+                        let (p, t) = rng.pick(&pool).clone();
+                        let (p, t) = if rng.chance(2, 3) { (edit_plan(rng, &p, four), t) } else { let mut t = mutate(&t, rng); t.lp = None; t.med = None; t.oid = None; t.cl = None; t.extra = 0; t.bogus = 0;
+                            t.path = super::c10::Slot::Absent; t.origin = super::c10::Slot::Absent; (p, t) };
+                        if eligible(&PduCand { four, ap, pdu: plan_pdu(&p, ap), tb: t.clone() }) || rng.chance(1, 20) { pool.push((p.clone(), t.clone())); (p, t) } else { pool[0].clone() }
+                    }
+                    _ => mk(rng),
+                };
+                toks.push(show_pdu_cand(four, ap, &plan_pdu(&plan, ap), &tb));
+            }
+            let s = if rng.chance(1, 4) { "rfc4271" } else { "skipmed" };
+            v.push(format!("sel {} {}", s, toks.join(" ")));
+            if n <= 5 { v.push(format!("selperm {} {}", s, toks.join(" "))); }
+        }
         // the generic helper on integers: all lists over {0..3} up to length 5, random longer ones
         for n in 0..=5usize {
             let mut cur = vec![0u32; n];
@@ -335,9 +370,12 @@ impl Prop for C11 {
             [op @ ("sel" | "selperm"), s, rest @ ..] => {
                 let perms = *op == "selperm";
                 if perms && rest.len() > 6 { return "bad-op".into(); }
-                let mut specs = Vec::new();
-                for r in rest { match parse_route(r) { Some(r) => specs.push(r), None => return "bad-op".into() } }
-                match *s { "skipmed" => sel::<SkipMed>(&specs, perms), "rfc4271" => sel::<Rfc4271>(&specs, perms), _ => "bad-op".into() }
+                let mut cands = Vec::new();
+                for r in rest { match parse_cand(r) { Some(c) => cands.push(c), None => return "bad-op".into() } }
+                // all candidates as route records or all as received UPDATEs
+                let n_pdu = cands.iter().filter(|c| matches!(c, Cand::Pdu(_))).count();
+                if n_pdu != 0 && n_pdu != cands.len() { return "bad-op".into(); }
+                match *s { "skipmed" => sel::<SkipMed>(&cands, perms), "rfc4271" => sel::<Rfc4271>(&cands, perms), _ => "bad-op".into() }
             }
             ["gen", rest @ ..] => {
                 let mut xs = Vec::new();
@@ -356,7 +394,11 @@ impl Prop for C11 {
         let w: Vec<&str> = line.split(' ').collect();
         match w.as_slice() {
             [op @ ("sel" | "selperm"), s, rest @ ..] => {
-                let rs: Vec<RouteSpec> = rest.iter().map(|r| parse_route(r).unwrap()).collect();
+                // (whether an UPDATE is accepted is not C11's subject; candidates given as UPDATEs are judged on c10.rs's
+                // own reading of the PDU, an UPDATE it cannot walk is not judged)
+                if reply == "rej" || reply == "pmerr" { return Ok(()); }
+                let cands: Vec<Cand> = rest.iter().map(|r| parse_cand(r).unwrap()).collect();
+                let Some(rs) = cand_specs(&cands) else { return Ok(()) };
                 // the same candidates presented with separate and with shared attribute maps
                 for (i, part) in reply.split(" | shared ").enumerate() {
                     let tag = |e: String| if i == 0 { e } else { format!("when candidates with equal attributes share one PaMap object: {}", e) };
@@ -387,7 +429,7 @@ impl Prop for C11 {
     }
 
     fn nontrivial(&self, line: &str, reply: &str) -> bool {
-        reply != "bad-op" && reply != "refused" && line.split(' ').count() > 2
+        reply != "bad-op" && reply != "refused" && reply != "rej" && reply != "pmerr" && line.split(' ').count() > 2
     }
 
     fn class(&self, line: &str, reply: &str) -> String {
@@ -398,7 +440,9 @@ impl Prop for C11 {
                 let nb = if n <= 6 { n.to_string() } else if n <= 16 { "7-16".into() } else { "17+".into() };
                 let kind = if reply == "refused" { "refused" } else if reply.contains("-") && !reply.contains("/") && reply.contains("pos=") && reply.contains(",- val") { "no-backup" }
                     else if reply.contains("/-") { "no-backup" } else { "backup" };
-                format!("{}:{}:n={}:{}", w[0], w.get(1).unwrap_or(&""), nb, kind)
+                let kind = if reply == "rej" { "rej" } else { kind };
+                let from = if w.get(2).map_or(false, |t| t.starts_with('u')) { "wire:" } else { "" };
+                format!("{}:{}:{}n={}:{}", w[0], w.get(1).unwrap_or(&""), from, nb, kind)
             }
             "gen" => format!("gen:n={}", (w.len() - 1).min(6)),
             _ => "other".into(),
